@@ -137,32 +137,37 @@ class World:
                 self.ns[k] = v
 
 
-def run_forked(ops_list):
-    """run each op sequence of `ops_list` in its own forked child; returns the list of outcome lists"""
+def _child(ops, w):
+    code = 0
+    try:
+        import logging
+        logging.disable(logging.CRITICAL)
+        import warnings
+        warnings.simplefilter('ignore')
+        world = World()
+        outs = [world.do(op) for op in ops]
+        data = pickle.dumps(outs)
+    except BaseException:
+        data = pickle.dumps([['harness-error', traceback.format_exc()[-800:]]])
+        code = 1
+    try:
+        with os.fdopen(w, 'wb') as f:
+            f.write(data)
+    finally:
+        os._exit(code)
+
+
+def run_forked(ops_list, jobs=None):
+    """run each op sequence of `ops_list` in its own forked child; returns the list of outcome lists (in the order of `ops_list`).
+    The children are independent of one another (each is forked from this process, which never uses the library itself), so up to
+    `jobs` of them run at the same time; results are collected in order."""
+    if jobs is None:
+        jobs = int(os.environ.get('VERIF_HIST_JOBS') or min(4, os.cpu_count() or 1))
     results = []
-    for ops in ops_list:
-        r, w = os.pipe()
-        pid = os.fork()
-        if pid == 0:
-            code = 0
-            try:
-                os.close(r)
-                import logging
-                logging.disable(logging.CRITICAL)
-                import warnings
-                warnings.simplefilter('ignore')
-                world = World()
-                outs = [world.do(op) for op in ops]
-                data = pickle.dumps(outs)
-            except BaseException:
-                data = pickle.dumps([['harness-error', traceback.format_exc()[-800:]]])
-                code = 1
-            try:
-                with os.fdopen(w, 'wb') as f:
-                    f.write(data)
-            finally:
-                os._exit(code)
-        os.close(w)
+    pending = collections.deque()            # (pid, read end), oldest first
+
+    def reap():
+        pid, r = pending.popleft()
         with os.fdopen(r, 'rb') as f:
             data = f.read()
         os.waitpid(pid, 0)
@@ -170,6 +175,23 @@ def run_forked(ops_list):
             results.append(pickle.loads(data))
         except Exception:
             results.append([['harness-error', 'no data']])
+    for ops in ops_list:
+        while len(pending) >= max(1, jobs):
+            reap()
+        r, w = os.pipe()
+        pid = os.fork()
+        if pid == 0:
+            try:
+                os.close(r)
+                for _, r2 in pending:        # read ends of the siblings still running
+                    os.close(r2)
+            except BaseException:
+                pass
+            _child(ops, w)
+        os.close(w)
+        pending.append((pid, r))
+    while pending:
+        reap()
     return results
 
 
